@@ -1,6 +1,7 @@
 package clientgen
 
 import (
+	"strconv"
 	"strings"
 
 	"google.golang.org/protobuf/compiler/protogen"
@@ -237,9 +238,9 @@ func (g *Generator) generateEmptyBehaviorUnmarshalJSON(gf *protogen.GeneratedFil
 			field := fieldInfo.Field
 			jsonName := field.Desc.JSONName()
 
-			gf.P("// Handle empty_behavior=NULL: convert null to {} for protojson")
+			gf.P("// Handle empty_behavior=NULL: convert null to the JSON form of the empty message for protojson")
 			gf.P(`if rawVal, ok := raw["`, jsonName, `"]; ok && string(rawVal) == "null" {`)
-			gf.P(`raw["`, jsonName, `"] = []byte("{}")`)
+			gf.P(`raw["`, jsonName, `"] = []byte(`, strconv.Quote(emptyMessageJSON(field.Message)), `)`)
 			gf.P("}")
 			gf.P()
 		}
@@ -254,4 +255,29 @@ func (g *Generator) generateEmptyBehaviorUnmarshalJSON(gf *protogen.GeneratedFil
 	gf.P("return protojson.Unmarshal(modified, x)")
 	gf.P("}")
 	gf.P()
+}
+
+// emptyMessageJSON returns the proto3 JSON form of the empty (default) message of the given type:
+// "{}" for ordinary messages, the scalar form for the well-known types that are not written as
+// objects (an empty Timestamp is "1970-01-01T00:00:00Z", an empty StringValue is "").
+func emptyMessageJSON(message *protogen.Message) string {
+	switch message.Desc.FullName() {
+	case "google.protobuf.Timestamp":
+		return `"1970-01-01T00:00:00Z"`
+	case "google.protobuf.Duration":
+		return `"0s"`
+	case "google.protobuf.FieldMask", "google.protobuf.StringValue", "google.protobuf.BytesValue":
+		return `""`
+	case "google.protobuf.BoolValue":
+		return "false"
+	case "google.protobuf.Int32Value", "google.protobuf.UInt32Value",
+		"google.protobuf.FloatValue", "google.protobuf.DoubleValue":
+		return "0"
+	case "google.protobuf.Int64Value", "google.protobuf.UInt64Value":
+		return `"0"`
+	case "google.protobuf.ListValue":
+		return "[]"
+	default:
+		return "{}"
+	}
 }
